@@ -175,6 +175,10 @@ fn call(g: &Arc<G>, t: &mut Toks, o: &mut Out) {
                     }
                 }
                 o.obs(5080, &[vec![checks, bad.len() as i64]], &[]);
+                // the unrestricted distances themselves (compared with a recomputation to 1e-9: inexact weights)
+                let mut dv: Vec<(i64, f64)> = m0.iter().map(|(k, i)| (*k, i.distance)).collect();
+                dv.sort_by(|a, b| a.0.cmp(&b.0));
+                o.obs(5082, &dv.iter().map(|x| vec![s0, x.0]).collect::<Vec<_>>(), &dv.iter().map(|x| x.1).collect::<Vec<_>>());
                 if !bad.is_empty() {
                     o.obs(5081, &bad, &[]);
                 }
